@@ -11,6 +11,10 @@ yaml       YAMLParser: the same through yaml.safe_dump renderings, ignore_lines 
 log_get    TextFileOutput/LogFileOutput.get (+ `in`, keep_scan/last_scan/token_scan): exactly the
            lines containing the terms (all/any), original order, first/last `num`.
 log_after  LogFileOutput.get_after against a reference state machine over the generated datetimes.
+log_history  several log parser classes (composed str/list/dict time formats that share labels / single
+           formats / form with one another, sub-classes, several objects of one class, lazy loading)
+           searched one after the other in one process: every search answers as if it were the only one.
+framework  a multi-output spec feeding a command parser through the dependency runner.
 """
 import datetime
 import json
@@ -32,7 +36,14 @@ RULE = ("command: outputs of 0-6 lines built from filler, near-miss phrases and 
         "log_after: stamped and continuation lines, stamps rendered from generated datetimes in 14 "
         "shipped time formats (str/list/dict, with and without year, zero/space padded day), times "
         "scattered around the query time incl. equality and Dec/Jan boundaries; non-trivial = lines on "
-        "both sides of the query time and a continuation line. Distinct by the whole case.")
+        "both sides of the query time and a continuation line. log_history: 1-3 parser classes/objects per "
+        "case (time_format composed from 11 shipped single formats as str / list / dict with labels from a "
+        "pool of 6, later ones frequently derived from an earlier one: same labels - other formats, same "
+        "first/last format, same formats - other labels/form/order; sub-class with/without own format, "
+        "second object of a class, LazyLogFileOutput), each with its own log, then every parser searched "
+        "in a generated order plus 0-3 further searches (get_after, some get); non-trivial = two parsers "
+        "with different time formats searched and a later search expects some but not all lines. "
+        "Distinct by the whole case.")
 ASSUMPTIONS = [
     "python's json module and PyYAML (same loader class the parser uses) define what a document's "
     "value is / whether a text is a document; every generated 'valid' case is additionally tied to "
@@ -40,6 +51,8 @@ ASSUMPTIONS = [
     "C/POSIX locale for %a/%b/%p names (strftime and strptime of the same process)",
     "the phrases named in the CommandParser documentation are the must-reject set; the class's current "
     "lists (read at run time) bound what may be rejected",
+    "log_history runs every case in a forked copy of the worker that ends with the case (os.fork), so a "
+    "history consists of exactly the parsers and searches of the case",
 ]
 EXCLUDED = [
     "JSON/YAML scalar root documents: JSON left unasserted (only: value, skip or parse error, no other "
@@ -50,6 +63,9 @@ EXCLUDED = [
     "%A/%B locale names, time zones, time-only formats (%H:%M:%S without a date)",
     "extra_bad_lines containing upper-case letters (documented: lower case)",
     "more than one timestamp-shaped substring per log line; digits in log message text",
+    "log_history: time_format lists/dicts that mix formats with and without a year, or that hold two formats "
+    "of which one is found inside stamps of the other (the 3 pairs in CONFUSABLE): which format such a stamp "
+    "has is not stated",
 ]
 
 # ------------------------------------------------------------------------------------------------
@@ -822,19 +838,13 @@ def strat_after(tier):
     return _after_case()
 
 
-def check_after(case):
-    from insights.core import LogFileOutput
-    from insights.core.context import Context
-
-    f = FORMATS[case["fmt"]]
-    alts = _alts(f["tf"])
-    tf = f["tf"]
-    tf = dict(tf) if isinstance(tf, dict) else (list(tf) if isinstance(tf, list) else tf)
-    L = type("L", (LogFileOutput,), {"time_format": tf})
-    q = datetime.datetime(*case["query"])
+def _render_log(lines, alts):
+    """the generated line descriptions as text in the given single formats -> (rendered, times, spacepadded);
+    times[i] is the true time of a stamped line as far as its format can express it, None for a
+    line without stamp"""
     rendered, times = [], []
     spacepadded = False
-    for ln in case["lines"]:
+    for ln in lines:
         if ln["t"] is None:
             rendered.append(ln["msg"])
             times.append(None)
@@ -849,7 +859,11 @@ def check_after(case):
             if "%f" not in fmt:
                 t = t.replace(microsecond=0)
             times.append(t)
-    s = case["s"]
+    return rendered, times, spacepadded
+
+
+def _after_reference(rendered, times, q, s):
+    """reference state machine of the time-based search over the generated datetimes"""
     terms = [] if s is None else (s if isinstance(s, list) else [s])
     want, including = [], False
     for line, t in zip(rendered, times):
@@ -861,7 +875,10 @@ def check_after(case):
                 want.append(line)
         elif including:
             want.append(line)
-    obj = L(Context(content=rendered, path="/var/log/x.log"))
+    return want
+
+
+def _after_real(obj, q, s):
     s_arg = list(s) if isinstance(s, list) else s
     res = list(obj.get_after(q) if s is None else obj.get_after(q, s_arg))
     got = []
@@ -869,6 +886,24 @@ def check_after(case):
         if not isinstance(r, dict) or "raw_message" not in r:
             raise Violation("get_after yielded something that is not a parsed-line dict", item=repr(r))
         got.append(r["raw_message"])
+    return got
+
+
+def check_after(case):
+    from insights.core import LogFileOutput
+    from insights.core.context import Context
+
+    f = FORMATS[case["fmt"]]
+    alts = _alts(f["tf"])
+    tf = f["tf"]
+    tf = dict(tf) if isinstance(tf, dict) else (list(tf) if isinstance(tf, list) else tf)
+    L = type("L", (LogFileOutput,), {"time_format": tf})
+    q = datetime.datetime(*case["query"])
+    rendered, times, spacepadded = _render_log(case["lines"], alts)
+    s = case["s"]
+    want = _after_reference(rendered, times, q, s)
+    obj = L(Context(content=rendered, path="/var/log/x.log"))
+    got = _after_real(obj, q, s)
     if got != want:
         raise Violation("get_after(%s, %r) returned %r, expected %r" % (q.isoformat(), s, got, want),
                         time_format=repr(f["tf"]), lines=rendered)
@@ -896,6 +931,358 @@ def check_after(case):
     if spacepadded:
         labels.append("spacepad-day")
     return {"nontrivial": before and after and cont, "labels": sorted(set(labels))}
+
+
+# ------------------------------------------------------------------------------------------------
+# log_history: several log parser classes / objects and a sequence of searches in one process
+# ------------------------------------------------------------------------------------------------
+# The answer of a search depends on the parser's own time_format, its own lines and the arguments -
+# not on which other log parsers (other classes with other formats, sub-classes, other objects of the
+# same class) were searched before in the process, nor on earlier searches of the same object.  The
+# time_format values are composed here (str / list / dict with labels, 1-3 formats) and later parsers
+# of a history are frequently *derived* from an earlier one so that the two agree in one component
+# of the value (labels, first / last format, the set of formats, form and length) and differ elsewhere.
+
+YEAR_FMTS = ["%Y-%m-%d %H:%M:%S", "%Y/%m/%d %H:%M:%S", "%d/%b/%Y:%H:%M:%S", "%a %b %d %H:%M:%S %Y",
+             "%m/%d/%y %H:%M:%S", "%b %d %H:%M:%S.%f %Y", "%b %d, %Y %I:%M:%S %p", "%Y-%m-%dT%H:%M:%S.%f",
+             "%y%m%d %H:%M:%S", "%Y-%m-%d %H:%M:%S,%f"]
+NOYEAR_FMT = "%b %d %H:%M:%S"
+# pairs never put into one list/dict: a substring of a line stamped in one format is a valid time in
+# the other (by strptime), so which format "the" stamp of such a line has is not defined
+# (selftest() checks that every other pair is free of this)
+CONFUSABLE = [["%Y/%m/%d %H:%M:%S", "%m/%d/%y %H:%M:%S"], ["%b %d, %Y %I:%M:%S %p", "%y%m%d %H:%M:%S"],
+              ["%Y-%m-%d %H:%M:%S", "%Y-%m-%d %H:%M:%S,%f"]]
+TF_LABELS = ["old", "new", "standard", "error", "pre_10.1.5", "post_10.1.5"]
+HIST_PRES = ["", "", "", "[", "<", "host ", "x", "  ", "a b "]
+_US = [0, 1, 123456, 500000, 999999]
+
+
+def _compatible(a, b):
+    return a != b and [a, b] not in CONFUSABLE and [b, a] not in CONFUSABLE
+
+
+def _substring_is_stamp(text, fmt):
+    for i in range(len(text)):
+        for j in range(i + 8, len(text) + 1):
+            try:
+                datetime.datetime.strptime(text[i:j], fmt)
+            except ValueError:
+                continue
+            return text[i:j]
+    return None
+
+
+def _draw_fmts(draw, n, first=None, avoid=()):
+    chosen = [first] if first else []
+    while len(chosen) < n:
+        cand = [f for f in YEAR_FMTS if f not in avoid and all(_compatible(f, c) for c in chosen)]
+        if not cand:
+            break
+        chosen.append(draw(st.sampled_from(cand)))
+    return chosen
+
+
+def _draw_labels(draw, n, keep=()):
+    keep = list(keep)[:n]
+    rest = [l for l in TF_LABELS if l not in keep]
+    more = draw(st.permutations(rest))[:n - len(keep)] if n > len(keep) else []
+    return keep + list(more)
+
+
+@st.composite
+def _tf_fresh(draw):
+    form = draw(st.sampled_from(["str", "str", "list", "list", "dict", "dict", "dict"]))
+    if draw(st.integers(0, 4)) == 0:
+        fmts = [NOYEAR_FMT]
+    else:
+        fmts = _draw_fmts(draw, 1 if form == "str" else draw(st.sampled_from([1, 2, 2, 3])))
+    return {"form": form, "fmts": fmts, "labels": _draw_labels(draw, len(fmts)) if form == "dict" else []}
+
+
+@st.composite
+def _tf_variation(draw, e):
+    """a time_format that agrees with the earlier one `e` in one component and differs elsewhere"""
+    kind = draw(st.sampled_from(["labels", "first", "last", "formats", "permute", "reform"]))
+    yearless = e["fmts"] == [NOYEAR_FMT]
+    n = len(e["fmts"])
+    if kind in ("first", "last") and yearless:
+        kind = "labels"
+    if kind == "permute" and n < 2:
+        kind = "labels"
+    form, labels = e["form"], list(e["labels"])
+    if kind == "labels":
+        if n == 1 and not yearless and draw(st.integers(0, 3)) == 0:
+            fmts = [NOYEAR_FMT]
+        else:
+            fmts = _draw_fmts(draw, n, avoid=e["fmts"])
+    elif kind in ("first", "last"):
+        m = max(2, n) if draw(st.booleans()) else draw(st.sampled_from([2, 3]))
+        if kind == "first":
+            fmts = _draw_fmts(draw, m, first=e["fmts"][0], avoid=e["fmts"][1:])
+        else:
+            fmts = _draw_fmts(draw, m, first=e["fmts"][-1], avoid=e["fmts"][:-1])[::-1]
+        if form == "str":
+            form = draw(st.sampled_from(["list", "dict"]))
+    elif kind == "formats":
+        fmts = list(e["fmts"])
+        form = "dict"
+        labels = []
+    elif kind == "permute":
+        fmts = list(e["fmts"])[::-1] if draw(st.booleans()) else list(e["fmts"])[1:] + list(e["fmts"])[:1]
+    else:
+        fmts = list(e["fmts"])
+        form = draw(st.sampled_from([f for f in (["str"] if n == 1 else []) + ["list", "dict"] if f != e["form"]]))
+    if form == "dict":
+        labels = _draw_labels(draw, len(fmts), keep=labels)
+    else:
+        labels = []
+    return {"form": form, "fmts": fmts, "labels": labels}
+
+
+def _tf_value(spec):
+    if spec["form"] == "str":
+        return spec["fmts"][0]
+    if spec["form"] == "list":
+        return list(spec["fmts"])
+    return dict(zip(spec["labels"], spec["fmts"]))
+
+
+@st.composite
+def _hist_log(draw, fmts):
+    """a base time and a few lines stamped (in the given single formats) around it"""
+    year_in = fmts != [NOYEAR_FMT]
+    has_us = any("%f" in f for f in fmts)
+    span = (30 if year_in else 15) * 86400
+    boundary = draw(st.sampled_from(["any", "any", "jan", "dec"]))
+    year = draw(st.integers(2002, 2060))
+    if boundary == "jan":
+        base = datetime.datetime(year, 1, draw(st.integers(1, 6)), draw(st.integers(0, 23)), draw(st.integers(0, 59)),
+                                 draw(st.integers(0, 59)))
+    elif boundary == "dec":
+        base = datetime.datetime(year, 12, draw(st.integers(26, 31)), draw(st.integers(0, 23)), draw(st.integers(0, 59)),
+                                 draw(st.integers(0, 59)))
+    else:
+        base = datetime.datetime(year, 1, 1) + datetime.timedelta(seconds=draw(st.integers(0, 365 * 86400 - 1)))
+    off = st.one_of(st.sampled_from([0, 0, 1, -1, 60, -60, 3600, -3600, 86400, -86400, 2, -2]),
+                    st.integers(-span, span), st.integers(-120, 120))
+    lines = []
+    for _ in range(draw(st.integers(0, 7))):
+        msg = draw(_msg)
+        if draw(st.sampled_from([True, True, False])):
+            o = draw(off)
+            if year_in and draw(st.integers(0, 9)) == 0:
+                o = draw(st.integers(-400 * 86400, 400 * 86400))
+            dt = base + datetime.timedelta(seconds=o)
+            if has_us:
+                dt = dt.replace(microsecond=draw(st.sampled_from(_US)))
+            if not year_in and dt.month == 2 and dt.day == 29:
+                dt = dt - datetime.timedelta(days=1)          # strptime rejects a year-less 29 February
+            lines.append({"t": _t(dt), "alt": draw(st.integers(0, len(fmts) - 1)), "pre": draw(st.sampled_from(HIST_PRES)),
+                          "msg": msg, "spacepad": draw(st.booleans())})
+        else:
+            lines.append({"t": None, "msg": msg})
+    return {"base": _t(base), "lines": lines, "span": span, "has_us": has_us}
+
+
+@st.composite
+def _hist_case(draw):
+    nparsers = draw(st.sampled_from([1, 2, 2, 2, 3, 3]))
+    parsers, eff = [], []
+    for k in range(nparsers):
+        rel = "new" if k == 0 else draw(st.sampled_from(["new", "new", "new", "new", "sub", "sub", "inherit", "same"]))
+        of = draw(st.integers(0, k - 1)) if k else 0
+        if rel in ("new", "sub"):
+            if k and draw(st.booleans()):
+                spec = draw(_tf_variation(eff[draw(st.integers(0, k - 1))]))
+            else:
+                spec = draw(_tf_fresh())
+            eff.append(spec)
+        else:
+            spec = None
+            eff.append(eff[of])
+        log = draw(_hist_log(eff[k]["fmts"]))
+        parsers.append({"rel": rel, "of": of, "lazy": draw(st.integers(0, 3)) == 0, "tf": spec, "base": log["base"],
+                        "lines": log["lines"]})
+    order = list(draw(st.permutations(list(range(nparsers)))))
+    order += draw(st.lists(st.integers(0, nparsers - 1), min_size=0, max_size=3))
+    ops = []
+    for p in order:
+        fmts = eff[p]["fmts"]
+        span = (30 if fmts != [NOYEAR_FMT] else 15) * 86400
+        if ops and draw(st.integers(0, 5)) == 0:
+            ops.append({"op": "get", "p": p, "s": draw(st.one_of(st.sampled_from(["a", "e", "ERR", " ", ":", "x"]),
+                                                                st.lists(st.sampled_from(["a", "e", "x", " "]), min_size=1,
+                                                                         max_size=2)))})
+            continue
+        o = draw(st.one_of(st.sampled_from([0, 0, 1, -1, 60, -60, 3600, -3600, 86400, -86400, 2, -2]),
+                           st.integers(-span, span), st.integers(-120, 120)))
+        q = datetime.datetime(*parsers[p]["base"]) + datetime.timedelta(seconds=o)
+        if any("%f" in f for f in fmts) and draw(st.booleans()):
+            q = q.replace(microsecond=draw(st.sampled_from(_US)))
+        ops.append({"op": "after", "p": p, "query": _t(q),
+                    "s": draw(st.one_of(st.none(), st.none(), st.none(), st.sampled_from(["a", "e", "ERR", " ", ":"]),
+                                        st.lists(st.sampled_from(["a", "e", "x", " "]), min_size=1, max_size=2)))})
+    return {"parsers": parsers, "ops": ops}
+
+
+def strat_history(tier):
+    return _hist_case()
+
+
+def _in_fresh_copy(fn, case):
+    """fn(case) in a forked copy of this process that ends with the case.  A history is meant to be
+    exactly what the case says: whatever the code under test keeps process-wide while the searches of
+    one case run (a memo, a registry) must not be there when the next case starts, otherwise a
+    failure would depend on the cases that happened to run before and the (shrunk) replay file would
+    not reproduce it.  The parent never calls the code under test itself."""
+    import os
+    import signal
+    import traceback
+    from vp.core import _origin_in_repo
+    rfd, wfd = os.pipe()
+    pid = os.fork()
+    if pid == 0:
+        try:
+            os.close(rfd)
+            signal.signal(signal.SIGALRM, signal.SIG_DFL)
+            signal.alarm(120)       # a search that never ends must not leave this copy behind
+            try:
+                out = ["ok", fn(case)]
+            except Violation as v:
+                out = ["violation", v.msg, v.details]
+            except BaseException as e:  # noqa
+                text = "".join(traceback.format_exception(type(e), e, e.__traceback__))
+                out = ["repo" if _origin_in_repo(e) else "harness", "%s: %s" % (type(e).__name__, e), text[-3000:]]
+            try:
+                data = json.dumps(out)
+            except (TypeError, ValueError):
+                data = json.dumps([out[0]] + [repr(x) for x in out[1:]])
+            with os.fdopen(wfd, "w") as f:
+                f.write(data)
+        finally:
+            os._exit(0)
+    os.close(wfd)
+    try:
+        with os.fdopen(rfd) as f:
+            data = f.read()
+    finally:
+        os.waitpid(pid, 0)
+    if not data:
+        raise RuntimeError("the forked copy running the history ended without an answer")
+    out = json.loads(data)
+    if out[0] == "ok":
+        return out[1]
+    if out[0] == "violation":
+        details = out[2] if isinstance(out[2], dict) else {"details": out[2]}
+        raise Violation(out[1], **details)
+    if out[0] == "repo":
+        raise Violation("unexpected %s raised inside the code under test" % out[1], traceback=out[2])
+    raise RuntimeError("harness error inside the forked copy:\n" + out[2])
+
+
+def check_history(case):
+    return _in_fresh_copy(_history_body, case)
+
+
+def _history_body(case):
+    from insights.core import LogFileOutput, LazyLogFileOutput
+    from insights.core.context import Context
+
+    parsers = case["parsers"]
+    eff, classes, objs, logs = [], [], [], []
+    for k, p in enumerate(parsers):
+        rel = p["rel"] if k else "new"
+        of = (p["of"] % k) if k else 0
+        if rel in ("new", "sub"):
+            spec = p["tf"]
+            bases = (classes[of],) if rel == "sub" else ((LazyLogFileOutput,) if p["lazy"] else (LogFileOutput,))
+            cls = type("L%d" % k, bases, {"time_format": _tf_value(spec)})
+        elif rel == "inherit":
+            spec = eff[of]
+            cls = type("L%d" % k, (classes[of],), {})
+        else:
+            spec = eff[of]
+            cls = classes[of]
+        eff.append(spec)
+        classes.append(cls)
+        rendered, times, _sp = _render_log(p["lines"], spec["fmts"])
+        logs.append((rendered, times))
+        objs.append(cls(Context(content=list(rendered), path="/var/log/p%d.log" % k)))
+
+    def describe(k):
+        return "parser %d (%s%s, time_format=%r)" % (k, parsers[k]["rel"] if k else "new",
+                                                     " of %d" % (parsers[k]["of"] % k) if k and parsers[k]["rel"] != "new" else "",
+                                                     _tf_value(eff[k]))
+
+    labels = set(["parsers=%d" % len(parsers)])
+    done = []                   # the searches made so far, for the message
+    searched = []               # parser indices that had a time-based search
+    later_partial = False
+    for op in case["ops"]:
+        k = op["p"] % len(parsers)
+        rendered, times = logs[k]
+        s = op["s"]
+        if op["op"] == "get":
+            terms = s if isinstance(s, list) else [s]
+            want = [l for l in rendered if all(t in l for t in terms)]
+            got = []
+            for r in objs[k].get(list(s) if isinstance(s, list) else s):
+                if not isinstance(r, dict) or "raw_message" not in r:
+                    raise Violation("get() returned something that is not a parsed-line dict", item=repr(r))
+                got.append(r["raw_message"])
+            if got != want:
+                raise Violation("get(%r) of %s returned %r, expected %r (searches made before in this process: %s)"
+                                % (s, describe(k), got, want, "; ".join(done) or "none"), lines=rendered,
+                                parsers=[describe(i) for i in range(len(parsers))])
+            labels.add("op=get")
+            done.append("get(%r) on parser %d" % (s, k))
+            continue
+        q = datetime.datetime(*op["query"])
+        want = _after_reference(rendered, times, q, s)
+        got = _after_real(objs[k], q, s)
+        if got != want:
+            raise Violation("get_after(%s, %r) of %s returned %r, expected %r (searches made before in this process: %s)"
+                            % (q.isoformat(), s, describe(k), got, want, "; ".join(done) or "none"),
+                            lines=rendered, parsers=[describe(i) for i in range(len(parsers))])
+        others = [i for i in searched if _tf_value(eff[i]) != _tf_value(eff[k]) or eff[i]["form"] != eff[k]["form"]]
+        if others and want:
+            labels.add("later-parser-nonempty")
+            if len(want) < len(rendered):
+                later_partial = True
+        if k in searched:
+            labels.add("repeated-search-same-object")
+        if any(i != k and classes[i] is classes[k] for i in searched):
+            labels.add("second-object-same-class")
+        searched.append(k)
+        done.append("get_after(%s, %r) on parser %d" % (q.isoformat(), s, k))
+    for k, p in enumerate(parsers):
+        labels.add("rel=" + (p["rel"] if k else "new"))
+        labels.add("form=" + eff[k]["form"])
+        if eff[k]["fmts"] == [NOYEAR_FMT]:
+            labels.add("yearless")
+        if len(eff[k]["fmts"]) > 1:
+            labels.add("multi-format")
+        if p["lazy"] and (k == 0 or p["rel"] == "new"):
+            labels.add("lazy")
+        for i in range(k):
+            a, b = eff[i], eff[k]
+            if a is b or (a["form"] == b["form"] and _tf_value(a) == _tf_value(b) and a["labels"] == b["labels"]):
+                continue
+            if a["fmts"] != b["fmts"]:
+                if a["form"] == b["form"] == "dict" and a["labels"] == b["labels"]:
+                    labels.add("share:dict-labels")
+                if a["fmts"][0] == b["fmts"][0]:
+                    labels.add("share:first-format")
+                if a["fmts"][-1] == b["fmts"][-1]:
+                    labels.add("share:last-format")
+                if sorted(a["fmts"]) == sorted(b["fmts"]):
+                    labels.add("share:formats-permuted")
+                if a["form"] == b["form"] and len(a["fmts"]) == len(b["fmts"]):
+                    labels.add("share:form-and-length")
+            else:
+                labels.add("share:formats-other-form-or-labels")
+    distinct = len(set(json.dumps([eff[i]["form"], eff[i]["fmts"], eff[i]["labels"]]) for i in set(searched)))
+    return {"nontrivial": distinct >= 2 and later_partial, "labels": sorted(labels)}
 
 
 # ------------------------------------------------------------------------------------------------
@@ -932,6 +1319,28 @@ def selftest():
         assert render_stamp(t2, fmt, False) == datetime.datetime(*t2).strftime(fmt), (hour, render_stamp(t2, fmt, False))
         assert datetime.datetime.strptime(render_stamp(t2, fmt, False), fmt) == datetime.datetime(*t2), hour
     assert _ascii_lower("No Such FILE K") == "no such file K"
+
+    # log_history: formats that may share a list/dict are not confusable with each other, i.e. no
+    # substring of a line stamped in one is a time in the other (strptime decides, no regex involved);
+    # the pairs listed as confusable really are
+    sample = [[2024, 3, 5, 15, 4, 9, 123456], [2012, 12, 31, 23, 59, 59, 999999], [2001, 1, 1, 0, 0, 0, 0]]
+
+    def confusable(a, b):
+        for t3 in sample:
+            for sp in ([False, True] if " %d" in a else [False]):
+                for pre in ("", "host "):
+                    hit = _substring_is_stamp(pre + render_stamp(t3, a, sp) + " ab", b)
+                    if hit:
+                        return hit
+        return None
+    for a in YEAR_FMTS:
+        for b in YEAR_FMTS:
+            if _compatible(a, b):
+                assert confusable(a, b) is None, ("formats offered together are confusable", a, b, confusable(a, b))
+    for a, b in CONFUSABLE:
+        assert a in YEAR_FMTS and b in YEAR_FMTS and (confusable(a, b) or confusable(b, a)), (a, b)
+    for f in YEAR_FMTS + [NOYEAR_FMT]:
+        assert render_stamp(t, f, False) == dt.strftime(f), f
 
 
 # ------------------------------------------------------------------------------------------------
@@ -1041,11 +1450,12 @@ def strat_framework(tier):
 
 SUBS = [
     Sub("framework", check_framework, strategy=strat_framework, quick=300, thorough=3000, workers_quick=2),
-    Sub("command", check_command, strategy=strat_command, quick=1000, thorough=10000, workers_quick=2),
-    Sub("json", check_json, strategy=strat_json, quick=900, thorough=10000, workers_quick=2),
+    Sub("command", check_command, strategy=strat_command, quick=900, thorough=10000, workers_quick=2),
+    Sub("json", check_json, strategy=strat_json, quick=850, thorough=10000, workers_quick=2),
     Sub("yaml", check_yaml, strategy=strat_yaml, quick=600, thorough=8000, workers_quick=2),
-    Sub("log_get", check_get, strategy=strat_get, quick=1000, thorough=10000, workers_quick=2),
-    Sub("log_after", check_after, strategy=strat_after, quick=1200, thorough=12000, workers_quick=2),
+    Sub("log_get", check_get, strategy=strat_get, quick=900, thorough=10000, workers_quick=2),
+    Sub("log_after", check_after, strategy=strat_after, quick=1000, thorough=12000, workers_quick=2),
+    Sub("log_history", check_history, strategy=strat_history, quick=400, thorough=4000, workers_quick=2),
 ]
 
 REGRESSIONS = [
@@ -1074,4 +1484,29 @@ REGRESSIONS = [
         {"t": None, "msg": "cont"},
         {"t": [2021, 12, 30, 10, 0, 0, 0], "alt": 0, "pre": "", "msg": "old", "spacepad": False},
         {"t": None, "msg": "cont"}]}),
+    # fixed history for the reference machinery of log_history: a list format, a sub-class with its own
+    # year-less format, a second object of that sub-class, a sub-class of it without own format
+    Reg("history-subclasses-and-objects", "log_history", {"parsers": [
+        {"rel": "new", "of": 0, "lazy": False, "base": [2024, 3, 5, 11, 0, 0, 0],
+         "tf": {"form": "list", "fmts": ["%Y-%m-%d %H:%M:%S", "%d/%b/%Y:%H:%M:%S"], "labels": []}, "lines": [
+            {"t": [2024, 3, 5, 10, 0, 0, 0], "alt": 0, "pre": "", "msg": "start", "spacepad": False},
+            {"t": None, "msg": " more"},
+            {"t": [2024, 3, 5, 12, 0, 0, 0], "alt": 1, "pre": "[", "msg": "] GET /", "spacepad": False},
+            {"t": None, "msg": " trace"}]},
+        {"rel": "sub", "of": 0, "lazy": False, "base": [2024, 3, 5, 11, 0, 0, 0],
+         "tf": {"form": "str", "fmts": ["%b %d %H:%M:%S"], "labels": []}, "lines": [
+            {"t": [2024, 3, 5, 9, 0, 0, 0], "alt": 0, "pre": "", "msg": "host a", "spacepad": True},
+            {"t": [2024, 3, 5, 11, 0, 0, 0], "alt": 0, "pre": "", "msg": "host b", "spacepad": True},
+            {"t": None, "msg": "cont"}]},
+        {"rel": "same", "of": 1, "lazy": False, "base": [2024, 3, 5, 11, 0, 0, 0], "tf": None, "lines": [
+            {"t": [2024, 3, 6, 0, 0, 0, 0], "alt": 0, "pre": "", "msg": "host c", "spacepad": False}]},
+        {"rel": "inherit", "of": 1, "lazy": False, "base": [2024, 3, 5, 11, 0, 0, 0], "tf": None, "lines": [
+            {"t": [2024, 3, 4, 0, 0, 0, 0], "alt": 0, "pre": "", "msg": "host d", "spacepad": False},
+            {"t": None, "msg": "cont"}]}],
+        "ops": [{"op": "after", "p": 0, "query": [2024, 3, 5, 11, 0, 0, 0], "s": None},
+                {"op": "after", "p": 1, "query": [2024, 3, 5, 11, 0, 0, 0], "s": None},
+                {"op": "after", "p": 2, "query": [2024, 3, 5, 11, 0, 0, 0], "s": "host"},
+                {"op": "get", "p": 3, "s": "cont"},
+                {"op": "after", "p": 3, "query": [2024, 3, 5, 11, 0, 0, 0], "s": None},
+                {"op": "after", "p": 0, "query": [2024, 3, 5, 9, 0, 0, 0], "s": ["a"]}]}),
 ]
